@@ -69,7 +69,7 @@ def floors(tier):
     return {'evaluations': 20000, 'distinct_nontrivial': 3000, 'splits_checked': 50000, 'keyval_checked': 8000,
             'histkeys:sep': 6, 'hist:policy:first': 500, 'hist:policy:concatenate': 500, 'hist:policy:error': 500,
             'hist:policy:last': 500, 'repeated_keys_seen': 1000, 'keyval_second_call_on_same_list': 5000,
-            'keyval_default_values_used': 5000, 'all_arguments_info_checked': 1000, 'split_at_node_on_lists_with_none': 500, 'histkeys:keyval_separators': 2,
+            'keyval_default_values_used': 5000, 'all_arguments_info_checked': 1000, 'arginfo_keyval_option_calls': 10000, 'split_at_node_on_lists_with_none': 500, 'histkeys:keyval_separators': 2,
             'histkeys:arginfo_constructor': 2, 'content_as_chars_checked': 500, 'keyval_callable_policy_calls': 1000, 'hist:keyval_default:list': 2000,
             'lists_with_none_entries': 2000, 'argument_info_checked': 4000,
             'double_group_same_delimiters': 200, 'double_group_other_delimiters': 200}
@@ -523,6 +523,23 @@ def check_arginfo(case, rec):
                     r2 = ('exc', type(e).__name__)
                 if r1 != r2:
                     return 'parse_content_as_keyval() gives %r, parse_keyval_content() of the argument content gives %r' % (r1, r2)
+                # the same info object asked again with other option values: every call answers for its own options
+                for kwx in ({'repeated_key_aggregate_action': 'first'}, {'repeated_key_aggregate_action': 'last'},
+                            {'repeated_key_aggregate_action': 'error'}, {'repeated_key_aggregate_action': 'concatenate'},
+                            {'comma_sep_chars': ';'}, {'comma_sep_chars': ','}, {'extract_value_group_contents': False},
+                            {'extract_value_group_contents': True}):
+                    rec.monitor('arginfo_keyval_option_calls')
+                    try:
+                        q1 = [(kk, vv.latex_verbatim()) for kk, vv in ai.parse_content_as_keyval(**kwx).items()]
+                    except Exception as e:
+                        q1 = ('exc', type(e).__name__)
+                    try:
+                        q2 = [(kk, vv.latex_verbatim()) for kk, vv in content.parse_keyval_content(**kwx).items()]
+                    except Exception as e:
+                        q2 = ('exc', type(e).__name__)
+                    if q1 != q2:
+                        return 'parse_content_as_keyval(%r) on an info object used before gives %r, parse_keyval_content(%r) ' \
+                               'of the argument content gives %r' % (kwx, q1, kwx, q2)
                 want_kv = model_keyval(s, content, 'concatenate', True) if isinstance(content, N.LatexNodeList) else None
                 if want_kv not in (None, 'ERROR') and not isinstance(r1, tuple):
                     exp = [(kk, ''.join(p or '' for p in pieces)) for kk, pieces in want_kv]
@@ -614,7 +631,7 @@ def run_shard(desc, rec):
                     check_case(case, rec)
     elif desc['kind'] == 'arginfo':
         contents = ['a=1,b=2', '{a=1,b=2}', '{[}', '[x]', 'k', '', ' a = 1 ', '{a}{b}', '\\textbf{a,b}', '{{a,b}}', 'a,{b,c},d',
-                    '{a=1},b={2}', '{a=1,b=2}c', '\\alpha', '{(a,b)}', 'x={y=z}']
+                    '{a=1},b={2}', '{a=1,b=2}c', '\\alpha', '{(a,b)}', 'x={y=z}', 'a=1,a=2', 'k={v},k=w,j', 'a=1;a=2,b', 'p,p,p=3']
         for i in range(desc['count']):
             opt = rng.choice(contents + [None, None])
             main = rng.choice(contents)
